@@ -39,6 +39,22 @@ def correctMiner (n : Nat) (special : Bool) (parentRank : Option Nat)
   | .err e => .err e
   | .ok (_, _, d) => deputyByDistance n special parentRank d
 
+/-- `GetCorrectMiner` + lookup WITH Go's integer-division panics made explicit.  The translator renders Go's `%` and
+    `/` by Lean's total `Int.tmod` / `Int.tdiv` (`x % 0 = x`, `x / 0 = 0`), where Go panics with "integer divide by
+    zero".  After the two error returns the code evaluates `passTime % (nodeCount*mineTimeout)` and then
+    `… / mineTimeout`: a term without deputies (`n = 0`, the term is not loaded / not stable yet) or a zero timeout
+    crashes the caller.  `correctMiner` (kept for the proofs that assume `0 < n`, `0 < T`) agrees with this function
+    exactly when `n * T ≠ 0` (`correctMinerGo_eq`). -/
+def correctMinerGo (n : Nat) (special : Bool) (parentRank : Option Nat)
+    (parentTimeSec : Nat) (parentHeight : Nat) (mineTime mineTimeout : Int) : GoRes Nat :=
+  match GetCorrectMiner (mineTime := mineTime) (mineTimeout := mineTimeout) (parent_Time := parentTimeSec)
+      (nodeCount := (n : Int)) (parent_Height := parentHeight) (parent_MinerAddress := 0) with
+  | .panic => .panic
+  | .err e => .err e
+  | .ok _ =>
+    if (n : Int) * mineTimeout == 0 then .panic
+    else correctMiner n special parentRank parentTimeSec parentHeight mineTime mineTimeout
+
 /-- `special` as the code computes it for a target height. -/
 def isSpecial (targetHeight termDuration interimDuration : Nat) : Bool :=
   targetHeight == 1 || IsRewardBlock (height := targetHeight) (params_TermDuration := termDuration)
